@@ -109,6 +109,37 @@ pub fn headers(d: &mut D) {
             d.ex(json!({"op":"hdr_set","view":view,"raw":jb(&raw),"field":"vendor_id","value":jb(&val)}));
         }
     }
+    // --- views laid over a backing buffer that is longer than the view (e.g. directly over received bytes):
+    // the extra bytes are neither read nor written
+    for view in ["smbus", "transport", "body", "control", "routing", "pci", "iana"] {
+        let n = view_len(view);
+        for extra in [1usize, 2, 3, 7] {
+            for rep in 0..(if d.thorough { 200 } else { 12 }) {
+                let mut raw = d.g.bytes(n + extra);
+                if rep % 3 == 0 {
+                    // extra bytes that would show up in any field: all ones / the complement of the view's bytes
+                    for i in n..n + extra {
+                        raw[i] = if rep % 2 == 0 { 0xFF } else { !raw[i % n] };
+                    }
+                }
+                if rep % 4 == 1 {
+                    for b in raw.iter_mut().take(n) {
+                        *b = 0;
+                    }
+                }
+                d.ex(json!({"op":"hdr_get","view":view,"raw":jb(&raw)}));
+                if view == "pci" || view == "iana" {
+                    let val = d.g.bytes(n);
+                    d.ex(json!({"op":"hdr_set","view":view,"raw":jb(&raw),"field":"vendor_id","value":jb(&val)}));
+                } else {
+                    for f in fields_of(view) {
+                        let val = *d.g.pick(&[0u64, 1, 0xFF, 0x7F, 0x80, 0x55]);
+                        d.ex(json!({"op":"hdr_set","view":view,"raw":jb(&raw),"field":f,"value":val}));
+                    }
+                }
+            }
+        }
+    }
     // --- validators
     for b0 in 0..=255u64 {
         for ver in 0..=17u64 {
